@@ -903,6 +903,15 @@ class LuaASTEchoWriter(BaseLuaWriter):
                 self._indent -= 1
         if not short_if:
             yield self._get_text(node, b'end')
+        else:
+            # The parser leaves an empty "else" of a short-if out of the
+            # tree, but it is part of the statement's tokens.
+            spaces = self._get_code_for_spaces(node)
+            if (self._pos < node.end_pos and
+                    self._tokens[self._pos].matches(lexer.TokKeyword(b'else'))):
+                yield spaces + self._get_text(node, b'else')
+            else:
+                yield spaces
 
     def _walk_StatForStep(self, node):
         yield self._get_text(node, b'for')
